@@ -24,6 +24,9 @@ import (
 type EItem struct {
 	HostName string `dials:"host_name"`
 	PortNum  int    `dials:"port_num"`
+	// no dials tag: the key comes from the Go field name (Go-identifier rules,
+	// whatever convention the tags are written in)
+	MaxConns int
 }
 
 type EBox struct {
@@ -36,17 +39,20 @@ type ECfg struct {
 	Items   []EItem          `dials:"item_list"`
 	More    []EItem          `dials:"more_items"`
 	One     *EItem           `dials:"one_item"`
+	HTTPPort int              // untagged: key from the Go field name [http port]
 	Box     EBox             `dials:"the_box"`
 }
 
 type EVal struct {
 	Host string `json:"host"`
 	Port int    `json:"port"`
+	Max  int    `json:"max,omitempty"`
 }
 
 // ELayer is what the inner source finds (absent = unset).
 type ELayer struct {
 	TopName  *string         `json:"top_name,omitempty"`
+	HTTPPort *int            `json:"http_port,omitempty"`
 	Items    []EVal          `json:"items,omitempty"`
 	HasItems bool            `json:"has_items,omitempty"`
 	Pair     *[2]EVal        `json:"pair,omitempty"`
@@ -60,9 +66,12 @@ type ELayer struct {
 
 func eStack(l ELayer) *ECfg {
 	c := &ECfg{TopName: "default", Items: []EItem{{HostName: "d", PortNum: 1}}, Box: EBox{BoxLabel: "dbox"}}
-	item := func(v EVal) EItem { return EItem{HostName: v.Host, PortNum: v.Port} }
+	item := func(v EVal) EItem { return EItem{HostName: v.Host, PortNum: v.Port, MaxConns: v.Max} }
 	if l.TopName != nil {
 		c.TopName = *l.TopName
+	}
+	if l.HTTPPort != nil {
+		c.HTTPPort = *l.HTTPPort
 	}
 	if l.HasItems {
 		c.Items = []EItem{}
@@ -106,9 +115,16 @@ func strictFill(v reflect.Value, l ELayer, enc func(...string) string) {
 		}
 		f.Set(xv.Convert(f.Type()))
 	}
+	// untagged fields: a renaming wrapper gives them a dials tag derived from the
+	// Go field name; the unwrapped reference type has no tag there, so the
+	// reference source goes by the Go name
+	goNames := map[string]string{enc("max", "conns"): "MaxConns", enc("http", "port"): "HTTPPort"}
 	byTag := func(sv reflect.Value, key string) reflect.Value {
 		for i := 0; i < sv.NumField(); i++ {
-			if sv.Type().Field(i).Tag.Get("dials") == key {
+			sf := sv.Type().Field(i)
+			if tag, has := sf.Tag.Lookup("dials"); has && tag == key {
+				return sv.Field(i)
+			} else if !has && goNames[key] == sf.Name {
 				return sv.Field(i)
 			}
 		}
@@ -127,6 +143,9 @@ func strictFill(v reflect.Value, l ELayer, enc func(...string) string) {
 		if f := byTag(iv, enc("port", "num")); f.IsValid() {
 			setScalar(f, val.Port)
 		}
+		if f := byTag(iv, enc("max", "conns")); f.IsValid() && val.Max != 0 {
+			setScalar(f, val.Max)
+		}
 	}
 	fillSlice := func(f reflect.Value, vals []EVal) {
 		s := reflect.MakeSlice(f.Type(), len(vals), len(vals))
@@ -137,6 +156,9 @@ func strictFill(v reflect.Value, l ELayer, enc func(...string) string) {
 	}
 	if f := byTag(v, enc("top", "name")); f.IsValid() && l.TopName != nil {
 		setScalar(f, *l.TopName)
+	}
+	if f := byTag(v, enc("http", "port")); f.IsValid() && l.HTTPPort != nil {
+		setScalar(f, *l.HTTPPort)
 	}
 	if f := byTag(v, enc("item", "list")); f.IsValid() && l.HasItems {
 		fillSlice(f, l.Items)
@@ -199,7 +221,7 @@ type C20ElemCase struct {
 }
 
 func genEVal(t *rapid.T) EVal {
-	return EVal{Host: rapid.StringMatching("[a-z]{1,5}").Draw(t, "host"), Port: rapid.IntRange(1, 9999).Draw(t, "port")}
+	return EVal{Host: rapid.StringMatching("[a-z]{1,5}").Draw(t, "host"), Port: rapid.IntRange(1, 9999).Draw(t, "port"), Max: rapid.IntRange(0, 99).Draw(t, "max")}
 }
 
 func genELayer(t *rapid.T) ELayer {
@@ -214,6 +236,10 @@ func genELayer(t *rapid.T) ELayer {
 	if rapid.Bool().Draw(t, "top") {
 		s := rapid.StringMatching("[a-z]{1,6}").Draw(t, "top_name")
 		l.TopName = &s
+	}
+	if rapid.Bool().Draw(t, "http_port") {
+		v := rapid.IntRange(1, 65535).Draw(t, "http_port_v")
+		l.HTTPPort = &v
 	}
 	if rapid.IntRange(0, 3).Draw(t, "items") != 0 {
 		l.HasItems, l.Items = true, vals("n_items")
@@ -328,7 +354,7 @@ func runC20Elem(c C20ElemCase) (verdict vrt.Verdict) {
 func TestC20Elements(t *testing.T) {
 	vrt.Check(t, vrt.Prop[C20ElemCase]{
 		ID: "C20", Name: "elements", NoJournal: true,
-		Rule: "a key-renaming wrapper (tag reformatting to kebab / UPPER_SNAKE / lowerCamel / unchanged; through ReformatDialsTagSource or NewTransformingSource, optionally after set->slice) around a watching inner source that - like a decoder - finds fields ONLY under the exact key of the target convention, over a config with structs held in two slices, behind a pointer and in a slice inside a nested struct; initial value and 0..3 updates; " +
+		Rule: "a key-renaming wrapper (tag reformatting to kebab / UPPER_SNAKE / lowerCamel / unchanged; through ReformatDialsTagSource or NewTransformingSource, optionally after set->slice) around a watching inner source that - like a decoder - finds fields ONLY under the exact key of the target convention, over a config (mostly tagged, with untagged fields at the root and in elements whose key comes from the Go field name) with structs held in two slices, behind a pointer and in a slice inside a nested struct; initial value and 0..3 updates; " +
 			"oracle: differential against an unwrapped Dials whose source uses the original keys, plus a pure model: views agree after the initial stack and every update; " +
 			"non-trivial = a renaming convention and at least one struct inside a collection was supplied; distinct = distinct case JSON",
 		Assumptions: []string{"multi-word lower_snake dials tags, so that every convention spells them differently",
